@@ -79,6 +79,11 @@ CLAIMED = {
    text="Decides: ToLower/ToUpper/Capitalize range rune-wise and append for every rune exactly unicode.ToLower/ToUpper of that rune (upper at offset 0 for Capitalize) and convert back; SnakeCase/KebabCase are one helper call differing only in the delimiter; Wrap writes token, payload, token and WrapAllRune does so per rune; ReverseStr converts to []rune, only swaps in a two-pointer loop and converts back; Pad functions return the input unchanged under size <= len and otherwise concatenate in the documented order with the pad cut to exactly the missing length; SplitAtIndex returns on every path two complementary parts; Unwrap strips exactly len(token) from both ends only under HasPrefix, HasSuffix and len >= 2*len(token); Substr's final slice is dominated by the range tests; no mutable globals, no goroutines. Substr's offset arithmetic, pad availability and the regexp-based case converters are not decided.",
    note="Trusted: go/ssa; contracts of unicode/strings functions used.",
    ref="DESIGN.md section 3 E7 (AG5), section 4 C15"),
+ "C11": dict(
+   technique="provenance of appended values, dominance by not-seen edges, complete-scan recognition, like-with-like typing of comparisons (element vs image), error-discipline rules, helper hygiene on go/ssa over slice.go",
+   text="Decides: every value appended to a result is the element just read from the first input in one complete forward scan (nothing foreign, first-occurrence order); appends happen only on the 'not yet seen' edge of a local seen-map lookup updated with the same key on the same path, or of Contains(result, element); Without/Difference(By) compare the element with every entry of the exclusion list and the equality edge cannot reach the append; comparisons and membership tests are like with like; Intersection(By) accept exactly when the scan j = 1..len(params) over the other inputs ran to completion with membership of the element in params[j]; Duplicate(WithIndex) emit only under count > 1; Union/Flatten propagate the flattening error, malformed nesting reaches an error return, the flatten accumulator grows by appends only; no mutable globals, no goroutines. Exact membership for concrete inputs is not decided.",
+   note="Trusted: go/ssa; Contains is the quantifier checked by C13; callbacks pure.",
+   ref="DESIGN.md section 3 E3/E5, section 4 C11"),
 }
 
 NOT_YET = "check not built yet (static-analysis engines under construction; see DESIGN.md section 7)"
